@@ -93,7 +93,14 @@ InContexts(i) == { i, VTuple(<<i>>), VTuple(<<SmallInt(1), i, A(<<111,107>>)>>),
                    MkFun(<<i>>), MkFun(<<SmallInt(1), VTuple(<<i>>)>>),
                    VTuple(<<VList(<<VMap(<< <<A(<<107>>), i>> >>)>>, VNil)>>), VList(<<VTuple(<<i, i>>)>>, i) }
                  \cup (IF i.k = "pid" THEN { VFun(2, [j \in 1..16 |-> j], <<0,0,0,1>>, A(<<109>>), SmallInt(3), SmallInt(4), i, <<i>>) } ELSE {})
-IdUniverse == UNION { InContexts(i) : i \in IdPlain \cup IdLocal }
+\* every byte value in every numeric field of an identifier (and every printable character in its node name), plain and node-local:
+\* what an identifier is re-emitted as must not depend on the values it happens to carry
+NodeWith(c) == A(<<110, c, 64, 104>>)
+IdSweep == UNION { { VPid(Node1, <<0,0,0,x>>, <<0,0,0,2>>, <<0,0,0,3>>, <<>>), VPid(Node1, <<0,0,0,1>>, <<0,0,x,0>>, <<0,0,0,3>>, <<>>), VPid(Node1, <<0,0,0,1>>, <<0,0,0,2>>, <<x,0,0,1>>, <<>>),
+                     VPort(Node1, <<0,0,0,0,0,x,0,5>>, <<0,0,0,1>>, <<>>), VRef(Node1, <<0,0,0,2>>, <<<<0,0,0,1>>, <<0,x,0,2>>>>, <<>>) } : x \in 0..255 }
+           \cup { VPid(NodeWith(c), <<0,0,0,1>>, <<0,0,0,2>>, <<0,0,0,3>>, <<>>) : c \in 33..126 }
+IdSweepAll == IdSweep \cup { [i EXCEPT !.loc = <<9,8,7,6,5,4,3,2>>] : i \in IdSweep }
+IdUniverse == UNION { InContexts(i) : i \in IdPlain \cup IdLocal } \cup IdSweepAll \cup { VTuple(<<SmallInt(1), i>>) : i \in IdSweepAll }
 \* node-local form wrapping the encoding the peer happened to use for the identifier (legacy / 32-bit tags):
 \* records [v |-> value, enc |-> bytes]; re-encoding must give these bytes back
 WrapCtx(b) == { <<131>> \o b, <<131, 104, 2, 97, 1>> \o b, <<131, 108, 0, 0, 0, 1, 97, 1>> \o b, <<131, 116, 0, 0, 0, 1>> \o b \o <<106>>, <<131, 116, 0, 0, 0, 1, 106>> \o b }
